@@ -6,5 +6,7 @@ import obl_kani
 def run(c):
     obl_kani.run(c, ["k_get_modifiers"])
     obl_fixed.obl_layout_key(c, budget_s=1200)
-    c.outside("JSON parsing of the layout file (Layout::parse) and the content of the bundled Probhat.json; "
+    # the same property on the layout object the crate's own Layout::parse builds from the file content (whatever the representation)
+    obl_fixed.obl_layout_table(c, thorough=(c.tier == "thorough"), budget_s=1200)
+    c.outside("serde_json's conversion of the layout file into a name -> text map and the content of the bundled Probhat.json; "
               "multi-code-point entries that start with a vowel sign (the helper chain keeps only the sign: recorded, not judged)")
